@@ -65,6 +65,7 @@ type PrintCtx struct {
 	prefix string
 
 	inGroupedMode bool
+	firstMember   bool // the next attribute is the first member of a nested JSON object
 
 	// curdir string
 
@@ -94,6 +95,7 @@ func (s *PrintCtx) setentry(e *Entry) {
 func (s *PrintCtx) set(e *Entry, lvl Level, timestamp time.Time, stackFrame uintptr, msg string, kvps Attrs) {
 	s.setentry(e)
 
+	s.firstMember = false
 	s.lvl = lvl
 	s.now = timestamp
 	s.stackFrame = stackFrame
